@@ -185,7 +185,8 @@ def unsplit_netloc(username, password, hostname, port):
 
     if auth:
         hostname = auth + "@" + hostname
-    if port:
+    # NOTE: port 0 is a port too
+    if port or port == 0:
         hostname += ":" + str(port)
 
     return hostname
